@@ -477,6 +477,13 @@ func generateProtectedHeaders(req *signature.SignRequest, protected cose.Protect
 
 	// extended attributes
 	for _, elm := range req.ExtendedSignedAttributes {
+		reserved, err := isReservedHeaderLabel(elm.Key)
+		if err != nil {
+			return &signature.InvalidSignRequestError{Msg: err.Error()}
+		}
+		if reserved {
+			return &signature.InvalidSignRequestError{Msg: fmt.Sprintf("%q already exists in the protected header", elm.Key)}
+		}
 		if _, ok := protected[elm.Key]; ok {
 			return &signature.InvalidSignRequestError{Msg: fmt.Sprintf("%q already exists in the protected header", elm.Key)}
 		}
@@ -490,6 +497,52 @@ func generateProtectedHeaders(req *signature.SignRequest, protected cose.Protect
 	protected[cose.HeaderLabelCritical] = crit
 
 	return nil
+}
+
+// isReservedHeaderLabel reports whether an extended attribute key is a label
+// of a protected header defined by the envelope specification. Those headers
+// are generated from the other fields of the sign request; some of them are
+// written only after the extended attributes (crit, content type) or not at
+// all (the time header of the other signing scheme), so a lookup in the
+// headers generated so far does not find them. It returns an error if the key
+// is of a type that cannot be a COSE header label.
+func isReservedHeaderLabel(key any) (bool, error) {
+	var label int64
+	switch k := key.(type) {
+	case string:
+		switch k {
+		case headerLabelExpiry, headerLabelSigningScheme, headerLabelSigningTime, headerLabelAuthenticSigningTime:
+			return true, nil
+		}
+		return false, nil
+	case int:
+		label = int64(k)
+	case int8:
+		label = int64(k)
+	case int16:
+		label = int64(k)
+	case int32:
+		label = int64(k)
+	case int64:
+		label = k
+	case uint:
+		label = int64(k)
+	case uint8:
+		label = int64(k)
+	case uint16:
+		label = int64(k)
+	case uint32:
+		label = int64(k)
+	case uint64:
+		label = int64(k)
+	default:
+		return false, fmt.Errorf("COSE envelope format only supports key of type integer or string, got %T", key)
+	}
+	switch label {
+	case cose.HeaderLabelAlgorithm, cose.HeaderLabelCritical, cose.HeaderLabelContentType:
+		return true, nil
+	}
+	return false, nil
 }
 
 // generateUnprotectedHeaders creates Unprotected Headers of the COSE envelope
